@@ -349,5 +349,6 @@ func Run(t *tr.W, thorough bool) {
 		scenLate(t, rng, true)
 		scenLate(t, rng, false)
 		runCurrent(t, rng)
+		scenQueuePressure(t, rng)
 	}
 }
